@@ -72,6 +72,15 @@ CLAIMED = {
          "escaper; U6 no Python-2 remnants below the mechanisms (DIGEST-MD5: recorded known findings). RFC 2831 arithmetic is not decided.",
     technique="finite-domain path enumeration of the selection logic + symbolic byte-template evaluation of payload builders + name-resolution lint",
     ref="4/C16"),
+ "C17": dict(
+    text="D1 local def-use from the reply content (third element of the sender's result) in every function that receives it: it never reaches the "
+         "size/status recognisers, so stored data is not taken for protocol; D2 the quoted-name pattern includes the RFC 5804 quoted-string language "
+         "(regex language inclusion), its name group cannot hold an unescaped quote, and the name is unescaped; D3 literal payload kept apart from line "
+         "text in the assembler (violated today: recorded known finding, with witness); D4 getscript returns the newline-join of all decoded lines with "
+         "no filter, slice, strip or content-dependent branch; D5 ACTIVE is looked up only in the group after the name. Necessary conditions; equality "
+         "with a server's store is not decided.",
+    technique="local taint (def-use) from reply content to regex sinks + regex language inclusion (DFA) + AST shape of the decoders",
+    ref="4/C17"),
 }
 NA = {}
 
